@@ -41,6 +41,10 @@ def run(rep, tier, prop="C01", extra_kinds=()):
     if br_:
         common.guarded(rep, "C03.3", c03.c03_3, rep, ix, M, cc_, br_)
     common.guarded(rep, "C03.5", c03.c03_5, rep, ix, M)
+    if P == "C01":
+        # the symbols SymPy prints are the ones the reader created: plain Symbol(<token text>), no assumptions that make SymPy rewrite the expression
+        from . import c08
+        common.guarded(rep, "C08.1", c08.c08_1, rep, ix, M.G)
     common.guarded(rep, P + ".9", redeclaration, rep, ix, P + ".9")
     rep.rule(P + ".4", "script structure: metadata keywords, option and argument lists, statement lines and mode lists have the shapes the grammar prescribes; elements are separated by ', '", floor=8)
     common.guarded(rep, P + ".4", tser.structure, rep, P + ".4", ix, M)
